@@ -25,6 +25,17 @@ def is_call(o, path=None):
     return o[0][0] == "call" and (path is None or o[0][3] == path or erase_generics(o[0][3]) == erase_generics(path))
 
 
+def ty_of(f, op):
+    """type of a place operand, through references"""
+    if op["k"] not in ("copy", "move"):
+        return ""
+    t = f.local_ty(op["place"]["local"])["s"]
+    fl = [e for e in op["place"]["proj"] if e["k"] == "field"]
+    if fl:
+        t = fl[-1].get("ty", t)
+    return t.lstrip("&").replace("mut ", "").strip()
+
+
 def sort_fns(P):
     return [f for f in P.fns.values() if f.body["span"]["file"].endswith("sort.rs") and not f.body.get("in_test")
             and f.kind != "promoted" and not f.body.get("derived")]
@@ -481,9 +492,18 @@ def c12_r8(ctx):
             lo, hi = rv["ops"][0], rv["ops"][1]
             full = lo["k"] == "const" and lo.get("bits") == "0"
             ends = f.origins_of_operand(hi)
-            if not (ends and all(is_call(h) and h[0][3].endswith("::len") and len(h) == 1 and
-                                 f.origins_of_operand(f.call_at[h[0][2]].args[0]) == frames for h in ends)):
-                full = False
+
+            def is_table(op):
+                org = f.origins_of_operand(op)
+                if org == frames:
+                    return True
+                # the table after it was moved into the machine: a field of the value `new` returned
+                fty = f.local_ty(news[0].args[0]["place"]["local"])["s"] if news[0].args[0]["k"] in ("copy", "move") else None
+                return bool(org) and all(is_call(o, "sort::TopologicalSortMachine::new") and len(o) == 2 and o[1][0] == "field" for o in org) and \
+                    fty is not None and erase_generics(ty_of(f, op)) == erase_generics(fty)
+            if not (ends and all(is_call(h) and h[0][3].endswith("::len") and len(h) == 1 for h in ends)) or \
+                    not all(is_table(f.call_at[h[0][2]].args[0]) for h in ends):
+                raise AnalysisError("idiom not recognised: the end of the search range in %s is not the length of the frame table" % f.id)
             if not full:
                 ctx.viol((f.id, "search-range"), "the searches of a whole-graph sort do not run over 0..len of the frame table: some rules are never searched from (a cycle among them goes unreported and they are left out of the plan)", f.where(lp["header"]))
     elif it and all(any(o[:len(b)] == b for b in frames) for o in it):
